@@ -31,6 +31,8 @@ CHECKS["C08"] = dict(text="Theorems (Coq): @ERn, @(d:16,ERn), @(d:24,ERn), @aa:8
   ref="6 C08", technique="Coq proof (lia over mod 2^24 / 2^32) + correspondence", note=_TB + "; known finding: STC.W CCR,@-ERd is executed as a post-increment store")
 CHECKS["C20"] = dict(text="Theorems (Coq): every charge term of a handler is count x the C19 reference price at the stated address (fetch cycles at the instruction's address, data/stack/vector cycles at theirs); register ALU forms are charged one fetch independent of operand values. The per-form cycle table (cycles_ref) is compared with the implementation by correspondence: every form under random bus-controller settings.",
   ref="6 C20", technique="Coq proof of the price terms + correspondence of the per-instruction totals against the transcribed cycle table", note=_TB + "; the per-form totals are checked by differential testing, not proved (partial); TRAPA #0 and I/O-register operands excluded")
+CHECKS["C16"] = dict(text="Theorems (Coq): port_refines (induction over any history of DDR writes, DR writes and external input changes: the bus's port registers refine the abstract port latch/ddr/pin; reading DR returns latch on output bits and the pin on input bits), ports_independent (all 11 ports), announced_is_current (invariant: last ioport announcement = current output, preserved by events on the same and on other ports). Correspondence: bounded-exhaustive histories over a covering value set on every port, random longer ones on pairs of ports, through Bus::write / Bus::read / Bus::write_port with captured messages; announcements judged by the property's rule (redundant messages allowed).",
+  ref="6 C16", technique="Coq proof (invariant + abstraction function, byte-level boolean algebra by bit blasting, induction over histories) + correspondence", note=_TB + "; message time stamps are only checked to be non-decreasing")
 NOT_APPLICABLE = []
 
 def main():
